@@ -6,7 +6,7 @@
    and C01/C02/C06 but is not stated as one theorem over runs; it is checked
    on the implementation by the oracle. *)
 From Coq Require Import List ZArith QArith Qround Bool Arith.
-From PV Require Import Model.Types Model.Sim Model.Subproject Proofs.Base Proofs.C01Proof Proofs.C20Proof.
+From PV Require Import Model.Types Model.Sim Model.Subproject Proofs.Base Proofs.C01Proof Proofs.C20Proof Proofs.RunLemmas Proofs.C20Run.
 Import ListNotations.
 
 (* configuration from a successfully simulated project: the work amount is its
@@ -58,6 +58,25 @@ Theorem C20_needs_no_workers : forall c acc t, t_auto c t = true ->
   aw (td (fst (fst (alloc_task c acc t))) t) = aw (td s t) /\ af (td (fst (fst (alloc_task c acc t))) t) = af (td s t).
 Proof. exact auto_task_never_allocated. Qed.
 Print Assumptions C20_needs_no_workers.
+
+(* in the run: an automatic task t that is not bound to a component and has no
+   FF / SF predecessors (a configured sub-project task), with
+   perform_auto_task_while_absence_time off.  From any loop state in which it
+   is READY or WORKING with remaining work x >= 1e-10 until it is FINISHED, it is
+   logged WORKING at exactly steps_working x rate working steps (work_count
+   counts the `performed` snapshots of working steps in which it is WORKING);
+   with C20_number_of_working_steps that number is ceil(x / rate).  The proof
+   also shows that it starts at the first working step at which it is READY
+   and performs at every working step until it finishes. *)
+Theorem C20_working_steps_in_the_run : forall c o t, (t < nT c)%nat -> t_auto c t = true -> t_comp c t = None ->
+  (forall e, In e (t_inputs c t) -> snd e = FS \/ snd e = SS) -> o_auto_abs o = false ->
+  forall s tr sf, trace_from c o s tr sf ->
+  let u := update c o s in
+  ((st (td u t) = TReady /\ (tol <= rem (td u t))%Q) \/ (st (td u t) = TWorking /\ (tol <= rem (td u t))%Q)) ->
+  st (td sf t) = TFinished ->
+  exists fuel, steps_working fuel (rem (td u t)) (t_rate c t) = Some (work_count o t tr).
+Proof. exact working_steps_counted. Qed.
+Print Assumptions C20_working_steps_in_the_run.
 
 Example C20_example :
   steps_working 50 7 (60 # 180) = Some 21%nat /\ Z.max 0 (Qceiling (7 / (60 # 180))) = 21%Z
